@@ -7,7 +7,7 @@
    whose cluster does not change.  The engine-wide statement is covered by the flag correspondence of
    every lookup property and by the piece-reshaping search (see props/C03.py). *)
 From Coq Require Import List NArith Bool Sorted.
-From RB Require Import Base.Result Model.Buffer Model.BufferOps Proofs.BufferMonoP Proofs.BufferFlagsP.
+From RB Require Import Base.Result Model.Buffer Model.BufferOps Model.Font Model.Skip Model.Gsub Proofs.BufferMonoP Proofs.BufferFlagsP Proofs.GsubConcatP.
 Import ListNotations.
 Local Open Scope N_scope.
 
@@ -62,6 +62,23 @@ Print Assumptions C03_flag_calls_keep_clusters.
 Theorem C03_flags_survive : forall x m, set_cluster x (cluster x) m = x.
 Proof. exact set_cluster_same. Qed.
 Print Assumptions C03_flags_survive.
+
+(* lookup level (Model/Gsub.v, the interpreter C06's correspondence runs against the implementation): a context rule
+   that matches info[idx..en) hands its nested lookups a buffer in which exactly the glyphs of the match range whose
+   cluster is not the range's minimum carry UNSAFE_TO_BREAK (and UNSAFE_TO_CONCAT); nothing else changed.  Levels 0/1,
+   clusters non-decreasing in processing order (C02's invariant). *)
+Theorem C03_context_match_flags_range : forall f e props rec cof preds recs c ps en t first,
+  out_mode (buf c) = true -> level (buf c) <> 2 -> nd (cls (rest (buf c))) ->
+  (dead (buf c) + 2 <= en)%nat -> (en <= blen (buf c))%nat ->
+  nth_error (rest (buf c)) 0 = Some first -> cluster first <= U32_MAX ->
+  match_input f e props (buf c) preds = Ok (MIok ps en t) ->
+  exists b', rest b' = map (flag_ne (cluster first) BREAK_CONCAT) (firstn (en - dead (buf c)) (rest (buf c)))
+                       ++ skipn (en - dead (buf c)) (rest (buf c))
+             /\ pre b' = pre (buf c)
+             /\ apply_context f e props rec cof preds recs c
+                = (do c' <- apply_lookup rec (with_buf c b') ps en recs; Ok (true, c')).
+Proof. exact context_match_flags_range. Qed.
+Print Assumptions C03_context_match_flags_range.
 
 (* non-vacuity: clusters 0 0 1 2 2 3, unsafe_to_break(1, 5): the glyphs of clusters 1 and 2 get the
    flags, the glyph of cluster 0 inside the range does not *)
